@@ -11,7 +11,7 @@ from harness.props import sched_common as sc
 ID = 'C14'
 PROPS_FILE = 'Props/Props_C14.v'
 EXTRA_TARGETS = ['Sched/Case.vo', 'Props/Props_Glue.vo']   # Glue: WFin holds of every reachable graph state
-CONST_PARTS = ('sched', 'srcfill')
+CONST_PARTS = ('sched', 'srcfill', 'srcpass')
 FAIL = sc.BITS['crash']
 MISMATCH = sc.BITS['outcome'] | sc.BITS['model_oracle']
 
@@ -240,6 +240,10 @@ def robustness_stream(ctx):
             c['resources'] += [{'name': nm, 'cal': sc.wk([0, 1, 2, 3, 4], ['i', 8])} for nm in names if nm not in have]
             cases.append(c)
             continue
+        if ctx.rng.random() < 0.25:
+            # user-defined resources whose capacity depends on the task asked for (blocked days, overtime days)
+            cases.append(sc.gen_task_aware_case(ctx.rng))
+            continue
         if ctx.rng.random() < 0.35:
             # float dust: remaining work such as 0.1 + 0.2 - 0.3 (5.6e-17 hours) - positive, far below any tolerance, and a
             # divisor-side hazard for whoever mixes `== 0` with `> epsilon`; ordinary calendars
@@ -288,6 +292,10 @@ def run(ctx):
 
     def extra(ctx_, case, out, code, desc):
         oc = out['outcome']
+        if out.get('again_exc') and not out['again_exc'].startswith(('RuntimeError', 'Timeout')):
+            # the later calculations of the runner (same scheduler again, fresh ones, the same scheduler on another plan)
+            ctx_.failure('C14/%s/later-call-crash' % case['dir'], 'a later calc on a valid WBS raised %s: only RuntimeError is a '
+                         'diagnosis' % out['again_exc'], desc)
         if oc == 20:
             ctx_.failure('C14/%s/timeout' % case['dir'], 'calc did not terminate within the 60 s alarm (%s scheduler)' % case['dir'], desc)
         label = 'returned' if oc == 0 else 'runtime_error' if oc == 1 else 'timeout' if oc == 20 else 'crash'
